@@ -208,8 +208,16 @@ def result_problems(r, want):
 def cells_struct(f):
     """Structural observation through the run list (used where the text itself may contain
     escape characters, so that the terminal string is not interpretable)."""
+    runs = getattr(f, "chunks", None)
+    if runs is None:
+        # the run list is not part of the API; without it fall back to the behavioural
+        # observation (text with escape characters then stays unobservable: text only)
+        try:
+            return cells(f)
+        except ObservationFailed:
+            return [(c, None, None, frozenset()) for c in f.s]
     out = []
-    for ch in f.chunks:
+    for ch in runs:
         a = ch.atts
         st = frozenset(k for k in STYLES if a.get(k))
         fg, bg = a.get("fg"), a.get("bg")
